@@ -47,6 +47,17 @@ func dig(parts ...interface{}) string {
 	for _, p := range parts {
 		fmt.Fprintf(h, "%v|", p)
 	}
+	// errors are values the caller may keep: every error seen so far must still read as it did
+	for _, he := range heldErrors {
+		if he.err.Error() != he.text {
+			fmt.Fprintf(h, "held error changed from %q to %q|", he.text, he.err.Error())
+		}
+	}
+	for _, p := range parts {
+		if e, ok := p.(error); ok && e != nil {
+			heldErrors = append(heldErrors, heldError{e, e.Error()})
+		}
+	}
 	d := fmt.Sprintf("%x", h.Sum(nil)[:12])
 	for _, p := range parts {
 		switch v := p.(type) {
@@ -65,6 +76,13 @@ func dig(parts ...interface{}) string {
 	}
 	return d
 }
+
+type heldError struct {
+	err  error
+	text string
+}
+
+var heldErrors []heldError
 
 func scribble(b []byte) {
 	b = b[:cap(b)]
@@ -444,6 +462,47 @@ func init() {
 	}})
 }
 
+var errorOps = []string{"SignBadDigestLen10", "SignBadDigestLen33", "SignCtxTooLong256", "SignCtxTooLong300", "BatchCtxTooLong256", "BatchBadDigest33Swallowed", "X25519BadPointLen5", "X25519BadPointLen31"}
+
+func init() {
+	mk := func(name string, f func() string) { c15ops = append(c15ops, c15op{name, nil, f}) }
+	for _, n := range []int{10, 33} {
+		n := n
+		mk(fmt.Sprintf("SignBadDigestLen%d", n), func() string {
+			f := fixtures()
+			s, e := f.priv.Sign(nil, make([]byte, n), &ed25519.Options{Hash: crypto.SHA512})
+			return dig(s, e)
+		})
+	}
+	for _, n := range []int{256, 300} {
+		n := n
+		mk(fmt.Sprintf("SignCtxTooLong%d", n), func() string {
+			f := fixtures()
+			s, e := f.priv.Sign(nil, f.msg, &ed25519.Options{Context: strings.Repeat("x", n)})
+			return dig(s, e)
+		})
+	}
+	mk("BatchCtxTooLong256", func() string {
+		f := fixtures()
+		all, valid, e := ed25519.VerifyBatch(rt.NewRng(1, "c15"), f.batchPub[:4], f.batchMsg[:4], f.batchSig[:4], &ed25519.Options{Context: strings.Repeat("y", 256)})
+		return dig(all, valid, e)
+	})
+	mk("BatchBadDigest33Swallowed", func() string {
+		f := fixtures()
+		msgs := [][]byte{f.digest, f.digest, make([]byte, 33), f.digest}
+		all, valid, e := ed25519.VerifyBatch(rt.NewRng(1, "c15"), f.batchPub[:4], msgs, f.batchSig[:4], &ed25519.Options{Hash: crypto.SHA512})
+		return dig(all, valid, e)
+	})
+	for _, n := range []int{5, 31} {
+		n := n
+		mk(fmt.Sprintf("X25519BadPointLen%d", n), func() string {
+			f := fixtures()
+			o, e := X25519(f.xScalar, make([]byte, n))
+			return dig(o, e)
+		})
+	}
+}
+
 func refusedCall(vv, kind string) string {
 	f := fixtures()
 	so := &stded.Options{Context: "ctx"}
@@ -756,6 +815,14 @@ func jobC15hist(c *rt.Ctx) {
 		}
 	}
 	c.Require("history/refused-then-sentinel")
+	// every ordered pair of failing calls (errors are kept by the harness: a later failure must not
+	// rewrite an error handed out earlier), each followed by nothing / by a succeeding call
+	for _, a := range errorOps {
+		for _, b := range errorOps {
+			seqs = append(seqs, []int{opIx(a), opIx(b), opIx("VerifyGood")})
+		}
+	}
+	c.Require("history/error-pairs")
 	sort.SliceStable(seqs, func(i, j int) bool { return len(seqs[i]) < len(seqs[j]) })
 	states := map[string]bool{}
 	for _, seq := range seqs {
@@ -768,7 +835,9 @@ func jobC15hist(c *rt.Ctx) {
 			continue
 		}
 		c.Step(len(seq))
-		if strings.HasPrefix(c15ops[seq[0]].name, "Refused/") {
+		if len(seq) == 3 && (strings.Contains(c15ops[seq[0]].name, "Bad") || strings.Contains(c15ops[seq[0]].name, "TooLong")) {
+			c.Class("history/error-pairs")
+		} else if strings.HasPrefix(c15ops[seq[0]].name, "Refused/") {
 			c.Class("history/refused-then-sentinel")
 		} else if strings.Contains(c15ops[seq[0]].name, "Reuse") {
 			c.Class("history/buffer-reuse")
